@@ -179,6 +179,57 @@ def frame_kinds(win_tree):
     return out
 
 
+def boundary_function(win_tree, calc):
+    """_calc_start_end must compute (value, side) of each bound with ONE function f -- a nested function or a
+    (static)method of WindowSpec -- as `a, b = f(start)`, `c, d = f(end)` and return
+    {"start": a, "start_side": b, "end": c, "end_side": d}.  Returns (FunctionDef of f, its parameter name)."""
+    body = _strip_doc_and_comments(calc.body)
+    nested = {st.name: st for st in body if isinstance(st, ast.FunctionDef)}
+    rest = [st for st in body if not isinstance(st, ast.FunctionDef)]
+    if [a.arg for a in calc.args.args] != ["self", "start", "end"]:
+        raise Untranslatable("_calc_start_end signature changed")
+    if len(rest) != 3 or not isinstance(rest[2], ast.Return) or not isinstance(rest[2].value, ast.Dict):
+        raise Untranslatable("_calc_start_end: expected two boundary computations and a returned dict")
+    names, callees = [], []
+    for st, arg in zip(rest[:2], ("start", "end")):
+        if not (isinstance(st, ast.Assign) and len(st.targets) == 1 and isinstance(st.targets[0], ast.Tuple)
+                and len(st.targets[0].elts) == 2 and all(isinstance(e, ast.Name) for e in st.targets[0].elts)
+                and isinstance(st.value, ast.Call) and len(st.value.args) == 1 and not st.value.keywords
+                and dotted(st.value.args[0]) == arg):
+            raise Untranslatable(f"_calc_start_end: `v, side = f({arg})` not found")
+        names.append([e.id for e in st.targets[0].elts])
+        callees.append(dotted(st.value.func))
+    if callees[0] != callees[1] or callees[0] is None:
+        raise Untranslatable("_calc_start_end: the two bounds are not computed by the same function")
+    # `start, start_side = f(start)` rebinds start before `f(end)`: fine, `end` is a different name; but refuse f(start) twice etc.
+    d = rest[2].value
+    got = {k.value: dotted(v) for k, v in zip(d.keys, d.values) if isinstance(k, ast.Constant)}
+    want = {"start": names[0][0], "start_side": names[0][1], "end": names[1][0], "end_side": names[1][1]}
+    if got != want or len(d.keys) != 4:
+        raise Untranslatable(f"_calc_start_end: returned dict routes {got}, expected {want}")
+    c = callees[0]
+    if c in nested:
+        fn = nested[c]
+        params = [a.arg for a in fn.args.args]
+    elif c.startswith("self.") or c.startswith("WindowSpec."):
+        fn = py2v.find_method(win_tree, "WindowSpec", c.split(".", 1)[1])
+        params = [a.arg for a in fn.args.args]
+        decos = [dotted(x) for x in fn.decorator_list]
+        if decos == ["staticmethod"]:
+            pass
+        elif decos == [] and params[:1] == ["self"]:
+            params = params[1:]
+        elif decos == ["classmethod"] and params[:1] == ["cls"]:
+            params = params[1:]
+        else:
+            raise Untranslatable(f"boundary function {c}: unexpected decorators {decos}")
+    else:
+        raise Untranslatable(f"_calc_start_end: boundary function {c} not found")
+    if len(params) != 1 or fn.args.vararg or fn.args.kwarg or fn.args.defaults or fn.args.kwonlyargs:
+        raise Untranslatable(f"boundary function {c}: signature changed")
+    return fn, params[0]
+
+
 def generate(repo: str):
     win_tree, win_src = py2v.load(os.path.join(repo, "sqlframe/base/window.py"))
     col_tree, col_src = py2v.load(os.path.join(repo, "sqlframe/base/column.py"))
@@ -188,15 +239,7 @@ def generate(repo: str):
         if k not in consts:
             raise Untranslatable(f"Window.{k} is not a constant")
     calc = py2v.find_method(win_tree, "WindowSpec", "_calc_start_end")
-    gvs = py2v.find_func(calc, "get_value_and_side")
-    if [a.arg for a in gvs.args.args] != ["x"]:
-        raise Untranslatable("get_value_and_side signature changed")
-    # the two calls and the returned dict must route start -> start/start_side, end -> end/end_side
-    body_src = ast.unparse(calc)
-    for needle in ("start, start_side = get_value_and_side(start)", "end, end_side = get_value_and_side(end)",
-                   "'start': start", "'start_side': start_side", "'end': end", "'end_side': end_side"):
-        if needle not in body_src:
-            raise Untranslatable(f"_calc_start_end: `{needle}` not found")
+    gvs, xname = boundary_function(win_tree, calc)
 
     def lit_expr(tr, n):
         # F.lit(<int expr>).expression
@@ -215,7 +258,7 @@ def generate(repo: str):
         return f"(Z.abs {a})", "Z"
 
     tr = py2v.Tr(
-        types={"x": "Z"},
+        types={xname: "Z"},
         env={f"Window.{k}": (f"w_{k}", "Z") for k in consts if "." not in k},
         calls={"attr:expression": lit_expr, "abs": zabs},
         strs={"CURRENT ROW": ("BCurrentRow", "bvalue"), "UNBOUNDED": ("BUnbounded", "bvalue"),
@@ -231,7 +274,7 @@ def generate(repo: str):
         if "." not in k and isinstance(v, int):
             L.append(f"Definition w_{k} : Z := ({v}).")
     L.append("Ltac unfold_window_consts := unfold " + ", ".join(f"w_{k}" for k, v in consts.items() if "." not in k and isinstance(v, int)) + " in *.")
-    L.append(f"Definition get_value_and_side (x : Z) : bvalue * option bside := {term}.")
+    L.append(f"Definition get_value_and_side ({xname} : Z) : bvalue * option bside := {term}.")
     L.append("Definition order_flags (m : ometh) : bool * bool := match m with MBare => (false, false) | " +
              " | ".join(f"{c} => ({'true' if flags[m][0] else 'false'}, {'true' if flags[m][1] else 'false'})"
                         for m, c in METHODS.items()) + " end.")
